@@ -16,7 +16,7 @@ struct Lim { std::string dim; long L; std::vector<long> levels; };
 static std::vector<Lim> limits() {
     return {
         // besides L-1, L, L+1 and far beyond: the values around the SIGNED boundary of the field that carries the quantity (127|128 on one byte, 32767|32768 on two)
-        {"param_description", 255, {127, 128, 254, 255, 256, 1000}}, {"param_name", 127, {126, 127, 128, 300}}, {"group_name", 127, {126, 127, 128, 300}},
+        {"param_description", 255, {127, 128, 254, 255, 256, 1000}}, {"param_name", 127, {126, 127, 128, 300}}, {"group_name", 127, {126, 127, 128, 300}}, {"locked_group_name", 127, {126, 127, 128, 129, 200, 256, 300}}, {"locked_param_name", 127, {126, 127, 128, 129, 200, 256, 300}},   // the lock flag is the SIGN of the length byte
         {"dimension_entry", 255, {127, 128, 254, 255, 256, 1000}}, {"empty_string_count", 255, {127, 128, 254, 255, 256, 300}}, {"dimension_after_empty", 255, {127, 128, 254, 255, 256, 300}}, {"string_length", 255, {127, 128, 254, 255, 256, 1000}}, {"string_count", 255, {127, 128, 254, 255, 256, 1000}},
         {"points", 255, {127, 128, 254, 255, 256, 300}}, {"channels", 255, {127, 128, 254, 255, 256, 300}}, {"frames", 32767, {32766, 32767, 32768, 70000}},
         {"int_max", 32767, {32766, 32767, 32768, 100000}}, {"int_min", -32768, {-32767, -32768, -32769, -100000}}, {"param_blocks", 255, {127, 128, 254, 255, 256, 300}}, {"record_offset", 65535, {32767, 32768, 65534, 65535, 65536, 262144}},
@@ -32,6 +32,8 @@ struct Build { C3D c; long nPoints = 1, nChans = 0, nFrames = 1, wantBlocks = 0,
 static void applyLimit(Build& b, const std::string& dim, long v) {
     if (dim == "param_description") { Param p("DESCR", std::string((size_t)v, 'x')); p.set(3); b.c.parameter("LIMITS", p); }
     else if (dim == "param_name") { Param p(std::string((size_t)v, 'N')); p.set(4); b.c.parameter("LIMITS", p); }
+    else if (dim == "locked_group_name") { Param p("INLOCKED"); p.set(5); std::string g((size_t)v, 'L'); b.c.parameter(g, p); Param q("AFTER"); q.set(6); b.c.parameter("ZLAST", q); b.c.lockGroup(g); }
+    else if (dim == "locked_param_name") { Param p(std::string((size_t)v, 'K')); p.set(4); p.lock(); b.c.parameter("LIMITS", p); Param q("AFTER"); q.set(6); b.c.parameter("LIMITS", q); }
     else if (dim == "group_name") { Param p("INLONG"); p.set(5); b.c.parameter(std::string((size_t)v, 'G'), p); }
     else if (dim == "dimension_entry") { Param p("WIDE"); std::vector<int> d((size_t)v); for (size_t i = 0; i < d.size(); ++i) d[i] = (int)i - 100; p.set(d); b.c.parameter("LIMITS", p); }
     else if (dim == "empty_string_count") { Param p("BLANKS"); p.set(std::vector<std::string>((size_t)v, std::string())); b.c.parameter("LIMITS", p); }            // dimensions [0, v]
